@@ -176,7 +176,7 @@ func C01Scenarios(tier string) []*h.Scenario {
 			},
 			Events: func(hh *h.Hist, slot int) []h.Event {
 				ev := perNodeEvents(hh, g, 4, c01TaintValues)
-				ev = append(ev, evBurst(g, 3, 1000), evClearPending(g), evRestart(), evStale(), evSkipSettle())
+				ev = append(ev, evBurst(g, 3, 1000), evClearPending(g), evRestart(), evStale(), evSkipSettle(), evRefreshFails())
 				return ev
 			},
 		}
@@ -222,9 +222,39 @@ func C01Scenarios(tier string) []*h.Scenario {
 	// grace periods that are not multiples of the scan interval (90 s / 210 s)
 	offgrid := mk("c01.mid.offgrid", 1, mid, false)
 	offgrid.Groups[0].Opts.SoftDeleteGracePeriod, offgrid.Groups[0].Opts.HardDeleteGracePeriod = "90s", "210s"
+	// two groups with different grace periods and taint effects: each group's nodes are judged by
+	// its own configuration
+	two := func() *h.Scenario {
+		g1, g2 := StdGroup("g1"), StdGroup("g2")
+		g2.Opts.SoftDeleteGracePeriod, g2.Opts.HardDeleteGracePeriod = dur(1), dur(6)
+		g2.Opts.TaintEffect = "NoExecute"
+		s := &h.Scenario{Name: "c01.two-groups", Groups: []h.GroupSpec{g1, g2}, Slots: 8, Quantum: Q, MaxEventsPerSlot: 2}
+		s.Init = func(hh *h.Hist) {
+			as := InitASGs(hh)
+			for i, g := range s.Groups {
+				n1 := hh.W.AddNode(as[i], sim.NodeOpt{Age: 20 * Q})
+				hh.W.AddPod(podOn(g, n1.Name, 500))
+				n2 := hh.W.AddNode(as[i], sim.NodeOpt{Age: 19 * Q, TaintAge: dp(1 * Q)})
+				hh.W.AddPod(podOn(g, n2.Name, 200))
+				hh.W.AddNode(as[i], sim.NodeOpt{Age: 18 * Q, TaintAge: dp(1 * Q)})
+				hh.W.AddNode(as[i], sim.NodeOpt{Age: 17 * Q, TaintAge: dp(3 * Q)})
+			}
+		}
+		s.Events = func(hh *h.Hist, slot int) []h.Event {
+			var ev []h.Event
+			for _, g := range s.Groups {
+				for _, n := range groupNodes(hh, g, 3) {
+					ev = append(ev, evPodStart(g, n.Name, 200), evPodFinish(g, n.Name), evExtTaint(n.Name, "now-1q"), evExtTaint(n.Name, "now-5q"))
+				}
+			}
+			return append(ev, evRestart(), evRefreshFails())
+		}
+		return s
+	}()
 	return []*h.Scenario{
 		overmax,
 		offgrid,
+		two,
 		mk("c01.fresh", 1, fresh, false),
 		mk("c01.mid", 1, mid, false),
 		mk("c01.mid.min0", 0, mid, false),
